@@ -21,8 +21,8 @@ func (ex *Exec) newBytesObject(b []byte, label string) *Object {
 	return o
 }
 
-// r resolves an object for reading.
-func (ex *Exec) r(o *Object) *Object {
+// r0 resolves an object for reading without flushing its symbolic write log.
+func (ex *Exec) r0(o *Object) *Object {
 	if o.shared && !ex.initPhase {
 		if c, ok := ex.cow[o]; ok {
 			return c
@@ -31,8 +31,8 @@ func (ex *Exec) r(o *Object) *Object {
 	return o
 }
 
-// w resolves an object for writing (copy-on-write for init-phase objects).
-func (ex *Exec) w(o *Object) *Object {
+// w0 resolves an object for writing (copy-on-write for init-phase objects).
+func (ex *Exec) w0(o *Object) *Object {
 	if o.shared && !ex.initPhase {
 		if c, ok := ex.cow[o]; ok {
 			return c
@@ -42,6 +42,43 @@ func (ex *Exec) w(o *Object) *Object {
 		return c
 	}
 	return o
+}
+
+// r resolves an object for reading; a pending symbolic write log is flushed
+// (its offsets concretised, forking) because the caller is not log-aware.
+func (ex *Exec) r(o *Object) *Object {
+	o = ex.r0(o)
+	if len(o.sym) > 0 {
+		o = ex.w0(o)
+		ex.flushSym(o)
+	}
+	return o
+}
+
+func (ex *Exec) w(o *Object) *Object {
+	o = ex.w0(o)
+	if len(o.sym) > 0 {
+		ex.flushSym(o)
+	}
+	return o
+}
+
+// symCell is one entry of an object's symbolic write log: an aligned n-byte
+// numeric store at a symbolic offset. Newer entries shadow older ones and the
+// concrete cell layer.
+type symCell struct {
+	off *Term
+	n   int
+	v   *Term
+}
+
+func (ex *Exec) flushSym(o *Object) {
+	log := o.sym
+	o.sym = nil
+	for _, sc := range log {
+		k := int64(ex.concretize(sc.off))
+		ex.storeCellC(o, k, sc.n, sc.v)
+	}
 }
 
 func (ex *Exec) mapR(m *MapObj) *MapObj {
@@ -214,6 +251,11 @@ func (ex *Exec) loadNumC(o *Object, off int64, n int) Value {
 func (ex *Exec) storeCellC(o *Object, off int64, n int, v Value) {
 	ex.checkAccess(o, off, int64(n), true)
 	ex.clearRange(o, off, int64(n))
+	if o.base == nil && o.size >= 512 {
+		if t, ok := v.(*Term); ok && t.op == OpConst && t.w != 0 {
+			o.base = make([]byte, o.size)
+		}
+	}
 	if o.base != nil {
 		if t, ok := v.(*Term); ok && t.op == OpConst && t.w != 0 {
 			for i := 0; i < n; i++ {
@@ -286,6 +328,11 @@ func (ex *Exec) resolveOffset(p Ptr, n int, numeric bool, write bool) (int64, []
 	if !ex.branch(inb) {
 		panic(pathEnd{stUnsafe, fmt.Sprintf("out-of-object symbolic access of %v", o)})
 	}
+	if numeric && !write {
+		if c := ex.sparseCands(o, n, alignOf(p.off)); c != nil {
+			return -2, c
+		}
+	}
 	if numeric {
 		step := alignOf(p.off)
 		if step > int64(n) {
@@ -306,11 +353,149 @@ func (ex *Exec) resolveOffset(p Ptr, n int, numeric bool, write bool) (int64, []
 	return int64(ex.concretize(p.off)), nil
 }
 
+// sparseCands: for a large object whose symbolic content is a few aligned
+// n-byte cells over a uniform concrete background, a symbolic-offset read is
+// an ite over those cells with the background as default. Returns the cell
+// offsets followed by the background value's offset marker (-1 - bgOffset),
+// or nil when the shape does not apply.
+func (ex *Exec) sparseCands(o *Object, n int, align int64) []int64 {
+	if align < int64(n) || o.size/int64(n) <= maxIteCands || len(o.cells) > maxIteCands {
+		return nil
+	}
+	var offs []int64
+	for k, c := range o.cells {
+		if int(c.w) != n || k%int64(n) != 0 {
+			return nil
+		}
+		if t, ok := c.v.(*Term); !ok || t.w == 0 {
+			return nil
+		}
+		offs = append(offs, k)
+	}
+	sort.Slice(offs, func(i, j int) bool { return offs[i] < offs[j] })
+	bg := int64(-1)
+	if o.base != nil {
+		var ref []byte
+		for k := int64(0); k+int64(n) <= o.size; k += int64(n) {
+			if _, covered := o.cells[k]; covered {
+				continue
+			}
+			w := o.base[k : k+int64(n)]
+			if ref == nil {
+				ref = w
+				bg = k
+				continue
+			}
+			for i := range w {
+				if w[i] != ref[i] {
+					return nil
+				}
+			}
+		}
+	}
+	if bg < 0 {
+		// all-zero background: find any uncovered slot (or none)
+		for k := int64(0); k+int64(n) <= o.size; k += int64(n) {
+			if _, covered := o.cells[k]; !covered {
+				bg = k
+				break
+			}
+		}
+	}
+	if bg < 0 {
+		return offs
+	}
+	return append(offs, -1-bg)
+}
+
+// loadThroughLog reads an object that carries a symbolic write log.
+func (ex *Exec) loadThroughLog(o *Object, p Ptr, n int) (Value, bool) {
+	if alignOf(p.off) < int64(n) || o.dead {
+		return nil, false
+	}
+	for _, sc := range o.sym {
+		if sc.n != n {
+			return nil, false
+		}
+	}
+	var res *Term
+	if k, ok := p.off.ConstVal(); ok {
+		ex.checkAccess(o, int64(k), int64(n), false)
+		v, isT := ex.loadNumC(o, int64(k), n).(*Term)
+		if !isT {
+			return nil, false
+		}
+		res = v
+	} else {
+		if o.size < int64(n) {
+			return nil, false
+		}
+		cands := ex.sparseCands(o, n, alignOf(p.off))
+		if cands == nil {
+			return nil, false
+		}
+		if !ex.branch(ex.st.Ule(p.off, c64(o.size-int64(n)))) {
+			panic(pathEnd{stUnsafe, fmt.Sprintf("out-of-object symbolic access of %v", o)})
+		}
+		res = ex.sparseRead(o, p.off, n, cands)
+	}
+	for _, sc := range o.sym {
+		res = ex.st.Ite(ex.st.Eq(sc.off, p.off), sc.v, res)
+	}
+	return res, true
+}
+
+func (ex *Exec) sparseRead(o *Object, off *Term, n int, cands []int64) *Term {
+	var res *Term
+	if len(cands) > 0 {
+		if last := cands[len(cands)-1]; last < 0 {
+			res = ex.loadNumC(o, -1-last, n).(*Term)
+			cands = cands[:len(cands)-1]
+		}
+	}
+	for i := len(cands) - 1; i >= 0; i-- {
+		v := ex.loadNumC(o, cands[i], n).(*Term)
+		if res == nil {
+			res = v
+		} else {
+			res = ex.st.Ite(ex.st.Eq(off, c64(cands[i])), v, res)
+		}
+	}
+	if res == nil {
+		res = mkConst(uint8(8*n), 0)
+	}
+	return res
+}
+
 func (ex *Exec) loadNum(p Ptr, n int) Value {
+	if p.obj != nil {
+		if o0 := ex.r0(p.obj); len(o0.sym) > 0 {
+			if v, ok := ex.loadThroughLog(o0, p, n); ok {
+				return v
+			}
+		}
+	}
 	off, cands := ex.resolveOffset(p, n, true, false)
 	o := ex.r(p.obj)
 	if cands == nil {
 		return ex.loadNumC(o, off, n)
+	}
+	if off == -2 {
+		var res *Term
+		last := cands[len(cands)-1]
+		if last < 0 {
+			res = ex.loadNumC(o, -1-last, n).(*Term)
+			cands = cands[:len(cands)-1]
+		}
+		for i := len(cands) - 1; i >= 0; i-- {
+			v := ex.loadNumC(o, cands[i], n).(*Term)
+			if res == nil {
+				res = v
+			} else {
+				res = ex.st.Ite(ex.st.Eq(p.off, c64(cands[i])), v, res)
+			}
+		}
+		return res
 	}
 	var res *Term
 	for i := len(cands) - 1; i >= 0; i-- {
@@ -327,7 +512,51 @@ func (ex *Exec) loadNum(p Ptr, n int) Value {
 	return res
 }
 
+// storeThroughLog appends an aligned numeric store to the symbolic write log
+// of a large object instead of enumerating the offset.
+func (ex *Exec) storeThroughLog(p Ptr, n int, v Value) bool {
+	vt, ok := v.(*Term)
+	if !ok || p.obj == nil {
+		return false
+	}
+	o0 := ex.r0(p.obj)
+	_, isC := p.off.ConstVal()
+	if len(o0.sym) == 0 && (isC || o0.size/int64(n) <= maxIteCands) {
+		return false
+	}
+	if alignOf(p.off) < int64(n) || len(o0.sym) >= 256 || o0.dead {
+		return false
+	}
+	for _, sc := range o0.sym {
+		if sc.n != n {
+			return false
+		}
+	}
+	if o0.ro {
+		panic(pathEnd{stUnsafe, fmt.Sprintf("write to read-only %v", o0)})
+	}
+	if k, ok := p.off.ConstVal(); ok {
+		ex.checkAccess(o0, int64(k), int64(n), true)
+	} else {
+		if o0.size < int64(n) {
+			return false
+		}
+		if !ex.branch(ex.st.Ule(p.off, c64(o0.size-int64(n)))) {
+			panic(pathEnd{stUnsafe, fmt.Sprintf("out-of-object symbolic access of %v", o0)})
+		}
+	}
+	if vt.w == 0 {
+		vt = ex.st.BoolToBV(vt, 8)
+	}
+	o := ex.w0(p.obj)
+	o.sym = append(o.sym, symCell{p.off, n, vt})
+	return true
+}
+
 func (ex *Exec) storeNum(p Ptr, n int, v Value) {
+	if ex.storeThroughLog(p, n, v) {
+		return
+	}
 	off, cands := ex.resolveOffset(p, n, true, true)
 	o := ex.w(p.obj)
 	if cands == nil {
